@@ -192,3 +192,87 @@ void drv_k2_invlow(int tier, unsigned long seed, const char *extra) {
     fn_begin("mpn_inv_divappr_q"); IN_ND(); gb_fill(q, qn); qh = mpn_inv_divappr_q(q, w, nn, d, dn, inv); fn_out_limbs("q", q, qn); fn_out_u64("qh", qh); fn_end();
   }
 }
+
+/* ---- Hensel (2-adic) division: odd divisor, dinv = 1/d mod B ---- */
+static void mk_odd(mp_ptr d, mp_size_t dn, int dk) {
+  switch (dk % NDK) {
+  case 0: rnd_limbs(d, dn, 0); break;
+  case 1: rnd_limbs(d, dn, 1); break;                                       /* B^dn - 1 */
+  case 2: MPN_ZERO(d, dn); break;                                           /* 1 */
+  case 3: MPN_ZERO(d, dn); d[dn - 1] = B63; break;                          /* B^dn/2 + 1 */
+  case 4: rnd_limbs(d, dn, 3); break;
+  case 5: rnd_limbs(d, dn, 5); break;
+  default: rnd_limbs(d, dn, 4); d[0] = ONES; break;
+  }
+  d[0] |= 1;
+}
+/* dividend for Hensel division.  how: 0 random, 1 all ones, 2 an exact multiple q*d (zero remainder, no borrow), 3 zero, 4 corner limbs, 5 low limbs zero, 6 runs, 7 d itself at the bottom */
+static void mk_bnum(mp_ptr n, mp_size_t nn, mp_srcptr d, mp_size_t dn, int how) {
+  mp_size_t qn = nn - dn; mp_ptr q, t;
+  switch (how % 8) {
+  case 0: rnd_limbs(n, nn, 0); break;
+  case 1: rnd_limbs(n, nn, 1); break;
+  case 3: MPN_ZERO(n, nn); break;
+  case 4: rnd_limbs(n, nn, 5); break;
+  case 5: rnd_limbs(n, nn, 0); MPN_ZERO(n, 1 + (mp_size_t)rnd_below(nn)); break;
+  case 6: rnd_limbs(n, nn, 3); break;
+  case 7: MPN_ZERO(n, nn); MPN_COPY(n, d, dn); break;
+  default: if (qn == 0) { MPN_COPY(n, d, dn); break; }
+    q = gb_get(8, qn, 1); t = gb_get(9, nn, 1); rnd_limbs(q, qn, (int)rnd_below(NKINDS));
+    if (qn >= dn) mpn_mul(t, q, qn, d, dn); else mpn_mul(t, d, dn, q, qn);
+    MPN_COPY(n, t, nn);
+  }
+}
+static void bdiv_case(mp_size_t nn, mp_size_t dn, int how, int dk, int place) {
+  mp_size_t qn = nn - dn;
+  mp_ptr n = gb_get(0, nn, place), d = gb_get(1, dn, place), q = gb_get(2, nn, place), w = gb_get(3, nn, place), wp = gb_get(6, 2, place); mp_limb_t dinv, cy;
+  mk_odd(d, dn, dk); mk_bnum(n, nn, d, dn, how); modlimb_invert(dinv, d[0]);
+  MPN_COPY(w, n, nn); fn_begin("mpn_sb_bdiv_q"); IN_ND(); gb_fill(q, nn); gb_fill(wp, 2); mpn_sb_bdiv_q(q, wp, w, nn, d, dn, dinv); fn_out_limbs("q", q, nn); fn_out_limbs("w", wp, 2); fn_end();
+  if (dn >= 6) { MPN_COPY(w, n, nn); fn_begin("mpn_dc_bdiv_q"); IN_ND(); gb_fill(q, nn); mpn_dc_bdiv_q(q, w, nn, d, dn, dinv); fn_out_limbs("q", q, nn); fn_end(); }
+  if (dn >= 6 && qn == 0) {
+    mp_ptr tp = gb_get(4, DC_BDIV_Q_N_ITCH(dn), place);
+    MPN_COPY(w, n, nn); fn_begin("mpn_dc_bdiv_q_n"); IN_ND(); gb_fill(q, nn); gb_fill(wp, 2); gb_fill(tp, DC_BDIV_Q_N_ITCH(dn)); mpn_dc_bdiv_q_n(q, wp, w, d, dn, dinv, tp); fn_out_limbs("q", q, nn); fn_out_limbs("w", wp, 2); fn_end();
+  }
+  if (qn >= 1) {
+    mp_ptr q1 = gb_get(2, qn, place);
+    MPN_COPY(w, n, nn); fn_begin("mpn_sb_bdiv_qr"); IN_ND(); gb_fill(q1, qn); cy = mpn_sb_bdiv_qr(q1, w, nn, d, dn, dinv); fn_out_limbs("q", q1, qn); fn_out_limbs("r", w + qn, dn); fn_out_u64("cy", cy); fn_end();
+    if (dn >= 2) { MPN_COPY(w, n, nn); fn_begin("mpn_dc_bdiv_qr"); IN_ND(); gb_fill(q1, qn); cy = mpn_dc_bdiv_qr(q1, w, nn, d, dn, dinv); fn_out_limbs("q", q1, qn); fn_out_limbs("r", w + qn, dn); fn_out_u64("cy", cy); fn_end(); }
+    if (dn >= 2 && qn == dn) {
+      mp_ptr tp = gb_get(4, DC_BDIV_QR_N_ITCH(dn), place);
+      MPN_COPY(w, n, nn); fn_begin("mpn_dc_bdiv_qr_n"); IN_ND(); gb_fill(q1, qn); gb_fill(tp, DC_BDIV_QR_N_ITCH(dn)); cy = mpn_dc_bdiv_qr_n(q1, w, d, dn, dinv, tp); fn_out_limbs("q", q1, qn); fn_out_limbs("r", w + qn, dn); fn_out_u64("cy", cy); fn_end();
+    }
+  }
+}
+void drv_k2_bdiv(int tier, unsigned long seed, const char *extra) {
+  shard_t sh = shard_parse(extra); long x = 0; int i, j, t, dns[120], nd = 0;
+  const int thr[] = {DC_BDIV_Q_THRESHOLD, DC_BDIV_QR_THRESHOLD, 2 * DC_BDIV_Q_THRESHOLD, 2 * DC_BDIV_QR_THRESHOLD, 4 * DC_BDIV_Q_THRESHOLD};
+  if (sh.pure) { dns[nd++] = 1; dns[nd++] = 2; }
+  else { for (i = 1; i <= (tier ? 44 : 26); i++) dns[nd++] = i; nd += sizes_around(dns + nd, 40, thr, 5, dns[nd - 1] + 1, 300); if (tier) { dns[nd++] = 160; dns[nd++] = 333; } }
+  for (i = 0; i < nd; i++) {
+    int dn = dns[i], qs[14], nq = 0, reps = sh.pure ? 2 : (tier ? 8 : 3);
+    qs[nq++] = 0; qs[nq++] = 1; if (!sh.pure) { qs[nq++] = 2; qs[nq++] = dn / 2 + 1; qs[nq++] = dn - 1; qs[nq++] = dn; qs[nq++] = dn + 1; qs[nq++] = 2 * dn; qs[nq++] = 2 * dn + 1; qs[nq++] = dn < 60 ? 4 * dn + 3 : dn + 57; }
+    for (j = 0; j < nq; j++) {
+      if (j > 1 && qs[j] <= 2 && qs[j] == qs[j - 1]) continue;
+      x++; if (!MINE(sh, x)) continue;
+      rec_reset("k2_bdiv", x, seed);
+      for (t = 0; t < reps; t++) bdiv_case(dn + (qs[j] < 0 ? 0 : qs[j]), dn, (int)((x + 3 * t) % 8), (int)((x / 3 + 3 * t) % NDK), t & 1);
+    }
+  }
+  /* mpn_bdivmod: Q = U / V mod 2^d for bit counts d on and off limb boundaries up to usize*64; separate quotient area, and quotient over the low limbs of U (qp = up) */
+  for (i = 1; i <= (sh.pure ? 2 : (tier ? 40 : 22)); i++) for (j = 1; j <= (sh.pure ? 2 : (tier ? 24 : 12)); j += (j < 4 ? 1 : 4)) {
+    mp_size_t un = i, vn = j;
+    x++; if (!MINE(sh, x)) continue;
+    rec_reset("k2_bdiv", x, seed);
+    for (t = 0; t < (sh.pure ? 3 : 8); t++) {
+      unsigned long bits = t == 0 ? un * 64 : t == 1 ? 64 * (1 + rnd_below(un)) : t == 2 ? (un > 1 ? 64 * (un - 1) + 1 + rnd_below(63) : 1 + rnd_below(63)) : t == 3 ? rnd_below(64) : rnd_below(un * 64 + 1);
+      mp_size_t k = bits / 64; int inplace = t >= 5; mp_limb_t ret;
+      mp_ptr u = gb_get(0, un, t & 1), v = gb_get(1, vn, t & 1), w = gb_get(3, un, t & 1), q = inplace ? w : gb_get(2, k, t & 1);
+      if (un == 2 && vn == 2 && t >= 6) bits = 64 * (t - 5), k = bits / 64;          /* the two-limb shortcut */
+      mk_odd(v, vn, (int)(x + t)); rnd_limbs(u, un, (int)((x / 2 + t) % NKINDS)); MPN_COPY(w, u, un);
+      fn_begin("mpn_bdivmod"); fn_in_limbs("u", u, un); fn_in_int("un", un); fn_in_limbs("v", v, vn); fn_in_int("vn", vn); fn_in_int("bits", (long)bits); fn_in_int("inplace", inplace); fn_mid();
+      if (!inplace) gb_fill(q, k);
+      ret = mpn_bdivmod(q, w, un, v, vn, bits);
+      fn_out_limbs("q", q, k); fn_out_u64("ret", ret); fn_out_limbs("uhi", w + k, un - k); if (!inplace) fn_out_limbs("u", w, un); fn_end();
+    }
+  }
+}
